@@ -42,20 +42,71 @@ def knobs_u():
     return k
 
 
+def knobs_q_classes():
+    k = knobs_q()
+    k.p_unknown_event = 0.0      # unknown names are handled differently by the hierarchical classes (outside C05/C09)
+    k.p_bad_dest = 0.0           # so are unregistered destinations (resolved before the exit callbacks there)
+    return k
+
+
+def run_on_class(d):
+    """the queued programs on the other synchronous classes (they share Machine._process)"""
+    from .c04 import get_cls, SYNC_CLASSES
+    pool = [c for c in SYNC_CLASSES[1:] if 'Graph' not in c]     # graph classes refuse to re-add a removed model
+    name = pool[int(flatcheck.fingerprint(d), 16) % len(pool)]
+    cls, kw = get_cls(name)
+    return flat.FlatRun(d, machine_cls=cls, extra_kwargs=kw)
+
+
+def knobs_async():
+    k = knobs_q()
+    k.p_unknown_event = 0.0
+    k.p_bad_dest = 0.0
+    k.p_share_cb = 0.0
+    k.max_history = 8
+    return k
+
+
+def async_oracle(d, r):
+    """the asyncio classes: queued=True (one queue) and queued='model' (judged on one model, where it must coincide
+    with the synchronous queue) follow the same discipline as the synchronous machine"""
+    from .. import asynctwin
+    fp = int(flatcheck.fingerprint(d), 16)
+    out = []
+    qmode = 1 + fp % 2
+    dd = asynctwin.clone(d)
+    if qmode == 2:
+        # per-model queues: comparable with the synchronous queue on a single model
+        keep = dd.models[:1]
+        dd.models = keep
+        # (no remove_model here: a trigger on a REMOVED model finds its per-model queue gone — outside the property)
+        dd.history = [c for c in dd.history if c[1] in keep and c[0] == TRIGGER]
+        dd.script = {k: ([c for c in cmds if c[1] in keep and c[0] == TRIGGER], o) for k, (cmds, o) in dd.script.items()}
+        if not dd.history:
+            return out
+    for w, det in asynctwin.twin_failures(dd, fp, qmode=qmode):
+        out.append((w, det, 'C05.' + w))
+    return out
+
+
 class C05(flatcheck.FlatCheck):
     prop = 'C05'
     manifest = dict(
         level='proof', design='DESIGN.md 4/C05',
-        text="Lean 4 theorem C05_queued_history: for every queued configuration, every script whose callbacks trigger events / remove models / raise arbitrarily, and every history, the engine model's trace follows the abstract FIFO queue (run-to-completion incl. finalize, arrival order, at most once, deferred calls return True, discard on escape, remove_model drops exactly that model's pending entries, drain returns only when empty). Proved by simulation; the same acceptor judges implementation traces; unqueued immediacy by model equality.",
+        text="Lean 4 theorem C05_queued_history: for every queued configuration, every script whose callbacks trigger events / remove models / raise arbitrarily, and every history, the engine model's trace follows the abstract FIFO queue (run-to-completion incl. finalize, arrival order, at most once, deferred calls return True, discard on escape, remove_model drops exactly that model's pending entries, drain returns only when empty). Proved by simulation; the same acceptor judges implementation traces of Machine and of the other synchronous classes; unqueued immediacy by model equality; the asyncio classes (queued=True, queued='model') by a sync-vs-async twin on the same programs (incl. remove_model from callbacks).",
         note="Trusted: Lean kernel, Model/Core.lean (_process, remove_model) tied by trace equality, acceptor Model/Spec/C05.lean, visibility marker (first finalize callback). Hierarchical machines share Machine._process; their queue behaviour is exercised by the nested correspondence.",
         technique="Lean 4 proof (simulation with an abstract queue) + differential correspondence + verified trace monitor")
     level = 'proof'
-    theorems = ('TM.C05_top_trigger', 'TM.C05_queued_history')
+    theorems = ('TM.C05_top_trigger', 'TM.C05_queued_history', 'TM.C05_unqueued_nested_immediate')
     streams = (
         flatcheck.Stream('queued', knobs_q, monitor=monitor, prepare=add_marker, nontrivial=nontrivial,
                          quick=(16, 300), thorough=(64, 2000)),
         flatcheck.Stream('unqueued', knobs_u, prepare=add_marker, nontrivial=nontrivial,
                          quick=(16, 100), thorough=(32, 1000)),
+        flatcheck.Stream('async-queued', knobs_async, prepare=add_marker, nontrivial=nontrivial, oracle=async_oracle,
+                         quick=(16, 40), thorough=(32, 400)),
+        flatcheck.Stream('queued-classes', knobs_q_classes, monitor=monitor, prepare=add_marker, nontrivial=nontrivial,
+                         run_factory=run_on_class, quick=(16, 100), thorough=(32, 800)),
     )
     rule = ('random callback programs: scripts in which callbacks at any stage trigger events on the same or other '
             'models (registered or not), call remove_model, or raise (Exception and BaseException), nested through '
